@@ -402,6 +402,9 @@ func (h *hist) genDashes() {
 	if allPos && len(d) > 0 && h.r.P(1, 4) { // negative offsets only without zeros and above -min(d): dashStart's offset < -period region is C05's
 		off = -minPos / 2
 	}
+	if allPos && len(d) >= 2 && h.r.P(1, 4) { // start inside the first gap: short paths lose their stroke
+		off = d[0] + d[1]/4
+	}
 	h.ctxOp(fmt.Sprintf("SetDashes %s %s", qf(off), floatsS(d)), fmt.Sprintf("SetDashes(%g, %v...)", off, d),
 		func(x *canvas.Context) { x.SetDashes(off, append([]float64{}, d...)...) })
 }
@@ -575,6 +578,9 @@ func (h *hist) genDraw() {
 		var pis, ds []string
 		for i := 0; i < n; i++ {
 			k := h.r.Intn(len(w.paths))
+			if n > 1 && i == 0 && h.r.P(1, 2) {
+				k = 8 // a very short path first
+			}
 			p := w.paths[k]
 			ps = append(ps, p)
 			pis = append(pis, fmt.Sprintf("(mkPI %s %s %s)", pathToks(p), qf(p.Length()), rectS(p.Bounds())))
